@@ -103,7 +103,9 @@ def _rng(ctx, kind, unit, K, direction, via):
         vu = _val_us(v, is_date)
         ctx.claim(f"value {i} is the start shifted by {i}*n units (computed from the start)", vu == exp)
         ctx.claim(f"value {i} lies inside the interval", (vu <= end_us) if sgn > 0 else (vu >= end_us))
-        ctx.claim(f"value {i} is contained (x in interval)", v in itv)
+        inside = (vu <= end_us) if sgn > 0 else (vu >= end_us)
+        s_us, e_us = _val_us(itv.start, is_date), _val_us(itv.end, is_date)
+        ctx.claim(f"x in interval <=> start <= x <= end (value {i})", IFF(v in itv, AND(s_us <= vu, vu <= e_us)))
         if prev is not None:
             ctx.claim(f"strictly monotone at {i}", (vu > prev) if sgn > 0 else (vu < prev))
         prev = vu
